@@ -15,7 +15,7 @@ SPEC = dict(
          'source of a copy, x = x, x.append(x)/prepend(x)/insert(x)/remove(x), x.swap(x) and arguments that are references to the container\'s own keys/values '
          '(Array::append(a[i]) / resize(n, a[i]) exactly at the growth boundary). distinct = hash of the operation texts; non-trivial = reached >=2 entries, executed >=1 removal '
          'and >=1 copy or self-argument operation. After every operation: both containers are read completely (forward, backward, front/back, size) through the registry and '
-         'compared with a reference model in which self-arguments are copied first; the number of live tracked elements must equal sentinels + entries * elements-per-entry; '
+         'compared with a reference model in which self-arguments are copied first; the number of live tracked elements must equal sentinels + entries * elements-per-entry (sentinels = what an empty default constructed container of the type holds by itself, measured at the start of every case, not assumed); '
          'at the end of the case everything is destroyed and the registry must be empty; LeakSanitizer check at process end.',
     assumptions=['ASan/UBSan + LeakSanitizer; library ASSERTs enabled (-DDEBUG)',
                  'equal keys of a MultiMap may be stored in any relative order (values compared as a multiset per key)',
